@@ -2,11 +2,14 @@
 
    What rests on THEOREMS (all inputs, no size bound): variables (exactly-one, decoding), ==/!= constant,
    ==/!= variable, all_different, no_overlap, linear ==/!= in every shape _linearize accepts (chained
-   partial-sum auxiliaries), sum_eq / sum_le / sum_ge, and whole models built from these kinds
-   (`model_proved M = forallb enc_proved (m_cons M)`): C06_sound, C06_complete, C06_equisat, C06_projection.
-   What rests on PER-CASE kernel checks (harness, every explored case): circuit and cumulative
-   (enc_proved = false) - CpCheck.cnf_projection_ok enumerates all models of the CAPTURED clause list inside coqc
-   and compares their projection with holdsb over the domain box; the same check also runs on the proved kinds.
+   partial-sum auxiliaries), sum_eq / sum_le / sum_ge, circuit (MTZ positions), cumulative (running literals +
+   minimal over-capacity subsets), and whole models built from them - i.e. EVERY kind the encoder accepts
+   (`enc_proved` is true of every constructor, EncModel.model_proved_all): C06_sound, C06_complete, C06_equisat,
+   C06_projection, for every well-formed model (wf_model: distinct ids, non-empty domains lb <= ub, literals
+   numbered consecutively from 1 as IntVar.__init__ does, constraint variables belong to the model, cumulative
+   with demands >= 0 and capacity >= 0).
+   PER-CASE kernel checks (harness, every explored case of every kind): CpCheck.cnf_projection_ok enumerates all
+   models of the CAPTURED clause list inside coqc and compares their projection with holdsb over the domain box.
    The checker itself is proved sound (C06_check_no_extra / C06_check_no_missing / C06_check_none): a case it
    accepts has, for EVERY SAT assignment of the captured clauses, exactly one value per variable forming a CP
    solution, and every CP solution is the projection of some SAT assignment of the captured clauses.
@@ -14,7 +17,7 @@
    admits two 2-cycles on 4 nodes. *)
 From Coq Require Import List ZArith Bool Lia.
 From SV Require Import C06.CpAst C06.CpAstProofs C06.CpEnc C06.CpCheck C06.CpPinned C06.EncBasics C06.EncPairwise
-                       C06.EncFrame C06.EncLinear C06.EncLinear2 C06.EncSum C06.EncSum2 C06.EncCircuit C06.EncCircuit2 C06.EncModel
+                       C06.EncFrame C06.EncLinear C06.EncLinear2 C06.EncSum C06.EncSum2 C06.EncCircuit C06.EncCircuit2 C06.EncCumul C06.EncModel
                        C06.CpCheckProofs C06.CpCheckProofs2.
 Import ListNotations.
 Open Scope Z_scope.
@@ -52,7 +55,7 @@ Theorem C06_linear_sound : forall b s n l r is_ne, 0 < n ->
   (forall v, In v (expr_vars l ++ expr_vars r) -> VOK b v) ->
   (forall v, In v (expr_vars l ++ expr_vars r) -> aval s v = bv b v) ->
   models b (fst (enc_ne_expr n l r is_ne)) -> holds s (CLin l r is_ne).
-Proof. exact (fun b s n l r is_ne => cons_sound b s n (CLin l r is_ne) eq_refl). Qed.
+Proof. exact (fun b s n l r is_ne => cons_sound b s n (CLin l r is_ne) eq_refl eq_refl). Qed.
 Print Assumptions C06_linear_sound.
 
 Theorem C06_linear_complete : forall b s n l r is_ne, 0 < n ->
@@ -60,7 +63,7 @@ Theorem C06_linear_complete : forall b s n l r is_ne, 0 < n ->
   (forall v, In v (expr_vars l ++ expr_vars r) -> aval s v = bv b v) ->
   holds s (CLin l r is_ne) ->
   exists b', agree_below n b b' /\ models b' (fst (enc_ne_expr n l r is_ne)).
-Proof. exact (fun b s n l r is_ne => cons_complete b s n (CLin l r is_ne) eq_refl). Qed.
+Proof. exact (fun b s n l r is_ne => cons_complete b s n (CLin l r is_ne) eq_refl eq_refl). Qed.
 Print Assumptions C06_linear_complete.
 
 Theorem C06_sum_sound : forall b n vs t, 0 < n -> (forall v, In v vs -> VOK b v) ->
@@ -94,37 +97,53 @@ Theorem C06_circuit_complete : forall b n vs, 0 < n -> (forall v, In v vs -> VOK
 Proof. exact enc_circuit_complete. Qed.
 Print Assumptions C06_circuit_complete.
 
+(* ---- cumulative: one "running" literal per task and time point, every minimal over-capacity subset forbidden *)
+Theorem C06_cumulative_sound : forall b n ts cap, 0 < n -> (forall p, In p ts -> VOK b (fst (fst p))) ->
+  (forall p, In p ts -> 0 <= snd p) -> 0 <= cap ->
+  models b (fst (enc_cumulative n ts cap)) -> cumulative_vals (cvals b ts) cap.
+Proof. exact enc_cumulative_sound. Qed.
+Print Assumptions C06_cumulative_sound.
+
+Theorem C06_cumulative_complete : forall b n ts cap, 0 < n ->
+  (forall p, In p ts -> VOK b (fst (fst p)) /\ var_below n (fst (fst p))) ->
+  (forall p, In p ts -> 0 <= snd p) -> 0 <= cap ->
+  cumulative_vals (cvals b ts) cap ->
+  exists b', agree_below n b b' /\ models b' (fst (enc_cumulative n ts cap)).
+Proof. exact enc_cumulative_complete. Qed.
+Print Assumptions C06_cumulative_complete.
+
 (* ---- (4) whole models.  wf_model: distinct ids, non-empty domains, literals numbered consecutively from 1
-   (IntVar.__init__), constraint variables are model variables.  model_proved: no circuit / cumulative. *)
-Theorem C06_sound : forall M b, wf_model M = true -> model_proved M = true -> models b (fst (encode M)) ->
+   (IntVar.__init__), constraint variables are model variables, cumulative demands/capacity >= 0.  All constraint
+   kinds are covered (model_proved_all), so there is no restriction on the kinds. *)
+Theorem C06_sound : forall M b, wf_model M = true -> models b (fst (encode M)) ->
   cp_solution M (dec_asgn (m_vars M) b)
   /\ forall v, In v (m_vars M) ->
        exists x, dec_var b v = Some x /\ aval (dec_asgn (m_vars M) b) v = x /\ vlb v <= x <= vub v
                  /\ forall y, vlb v <= y <= vub v -> (b (vlit v y) = true <-> y = x).
-Proof. exact encode_sound. Qed.
+Proof. exact (fun M b Hwf => encode_sound M b Hwf (model_proved_all M)). Qed.
 Print Assumptions C06_sound.
 
-Theorem C06_complete : forall M s, wf_model M = true -> model_proved M = true -> cp_solution M s ->
+Theorem C06_complete : forall M s, wf_model M = true -> cp_solution M s ->
   exists b, models b (fst (encode M)) /\ forall v, In v (m_vars M) -> dec_var b v = Some (aval s v).
-Proof. exact encode_complete. Qed.
+Proof. exact (fun M s Hwf => encode_complete M s Hwf (model_proved_all M)). Qed.
 Print Assumptions C06_complete.
 
-Theorem C06_equisat : forall M, wf_model M = true -> model_proved M = true ->
+Theorem C06_equisat : forall M, wf_model M = true ->
   ((exists b, models b (fst (encode M))) <-> exists s, cp_solution M s).
-Proof. exact encode_equisat. Qed.
+Proof. exact (fun M Hwf => encode_equisat M Hwf (model_proved_all M)). Qed.
 Print Assumptions C06_equisat.
 
 (* decode_sat_solution of the CNF models = the CP solutions projected on the named variables *)
-Theorem C06_projection : forall M, wf_model M = true -> model_proved M = true ->
+Theorem C06_projection : forall M, wf_model M = true ->
   forall p : list (nat * option Z),
     (exists b, models b (fst (encode M)) /\ decode M b = p)
     <-> (exists s, cp_solution M s /\ map (fun q => (fst q, Some (snd q))) (project M s) = p).
-Proof. exact encode_projection. Qed.
+Proof. exact (fun M Hwf => encode_projection M Hwf (model_proved_all M)). Qed.
 Print Assumptions C06_projection.
 
-Theorem C06_empty_clause_infeasible : forall M, wf_model M = true -> model_proved M = true ->
+Theorem C06_empty_clause_infeasible : forall M, wf_model M = true ->
   has_empty (fst (encode M)) = true -> forall s, ~ cp_solution M s.
-Proof. exact empty_clause_infeasible. Qed.
+Proof. exact (fun M Hwf => empty_clause_infeasible M Hwf (model_proved_all M)). Qed.
 Print Assumptions C06_empty_clause_infeasible.
 
 (* ---- the per-case checker (run by the harness on the CAPTURED clause list of every explored case, all kinds
@@ -187,8 +206,9 @@ Proof. vm_compute. repeat split; try reflexivity; lia. Qed.
 Example C06_nonvacuous_count : cnf_projection_ok ex_M (Some (fst (encode ex_M))) = true.
 Proof. vm_compute. reflexivity. Qed.
 
-(* circuit and cumulative: the checker accepts the model's own encoding of a 4-node circuit with successor domains
-   reaching outside 0..3 and of a 3-task cumulative (so C06_check_no_extra / _no_missing apply to them) *)
+(* circuit and cumulative: well-formed models (hypothesis of C06_sound / C06_complete) with a 4-node circuit whose
+   successor domains reach outside 0..3 (6 Hamiltonian cycles) and a 3-task cumulative; the Gallina model counter
+   agrees with the theorems on the model's own encoding *)
 Example C06_nonvacuous_circuit_cumulative :
   let s := fun i => mkVar i (-1) 3 true (1 + 5 * Z.of_nat i) in
   let Mc := mkModel [s 0%nat; s 1%nat; s 2%nat; s 3%nat] [CCircuit [s 0%nat; s 1%nat; s 2%nat; s 3%nat]] 21 in
